@@ -579,6 +579,8 @@ fn check() {
     //      real quinn client): see c11q.rs
     ctr.seqs.fetch_add(1, Ordering::Relaxed);
     samples.push(super::c11q::busy_connection_expiry(&chk));
+    ctr.seqs.fetch_add(1, Ordering::Relaxed);
+    samples.push(super::c11q::writer_size_sweep(&chk));
 
     let seqs = ctr.seqs.load(Ordering::Relaxed);
     let steps = ctr.steps.load(Ordering::Relaxed);
@@ -589,7 +591,7 @@ fn check() {
         "exhaustive": true,
         "states": ctr.outcomes.len(), "transitions": steps, "traces_validated_against_impl": seqs,
         "evaluations": seqs, "distinct_nontrivial": ctr.outcomes.len(),
-        "rule": "datagram sequences fed to a fresh real Fragments instance and to the list reference, compared after every datagram. distinct = distinct output lists. grid: 13 MTUs x boundary sizes x {transparent buffer, real Frame}; all permutations of n<=6 (thorough 7) fragments x one duplicate of any fragment at any position; all arrival orders of 2-3 frames; 10 malformed datagrams (pairs of them) at every position; a fragment claiming another total (7 totals x seq) for the id of a frame whose collection has begun, at every later position x every arrival order x a bystander frame: the frame still comes out exactly once; expiry sequences over 5 events; long runs of up to 70 000 (thorough 200 000) well-formed frames of 2-4 fragments through one table, past the wrap of the id, timer never / every k frames: each comes out exactly once at its last fragment; on the wire (real binary, real quinn client): a fragment whose sibling never comes, then 7.5 s of a busy connection, then a frame reusing the id comes out intact",
+        "rule": "datagram sequences fed to a fresh real Fragments instance and to the list reference, compared after every datagram. distinct = distinct output lists. grid: 13 MTUs x boundary sizes x {transparent buffer, real Frame}; all permutations of n<=6 (thorough 7) fragments x one duplicate of any fragment at any position; all arrival orders of 2-3 frames; 10 malformed datagrams (pairs of them) at every position; a fragment claiming another total (7 totals x seq) for the id of a frame whose collection has begun, at every later position x every arrival order x a bystander frame: the frame still comes out exactly once; expiry sequences over 5 events; long runs of up to 70 000 (thorough 200 000) well-formed frames of 2-4 fragments through one table, past the wrap of the id, timer never / every k frames: each comes out exactly once at its last fragment; on the wire (real binary, real quinn client): a fragment whose sibling never comes, then 7.5 s of a busy connection, then a frame reusing the id comes out intact; and every body size within 70 (thorough 200) of the connection's datagram limit, plus multiples and large ones, echoed back through the proxy's fragment writer exactly once",
         "grid_cells": grid_cells, "sequences": seqs, "datagrams_fed": steps,
         "expiry_sequences": expiry.0, "expiry_discarded_for_timing": expiry.1,
         "samples": samples,
